@@ -7,7 +7,7 @@ META = dict(
     explanation='Whole runs of the real group_by(key_mapper, inner) under with_memory_store on N symbolic integer items are compared, event by event (values, order and the source position '
                 'at which each output appears), with the reference interpreter: one group per distinct key value (by ==), each group sees its complete subsequence in source order, '
                 'streaming results are emitted as produced and groups still open at parent completion complete in order of first appearance. Key mappers return equal-but-not-identical objects '
-                '(fresh tuples, 10**20+k, floats, strings built at run time). Inner pipelines: to_list digest (order-sensitive, injective linear form), identity (streaming), scan, count->last; '
+                '(fresh tuples, 10**20+k, floats, strings built at run time) and distinct keys with equal hashes (-1 / -2). Inner pipelines: to_list digest (order-sensitive, injective linear form), identity (streaming), scan, count->last; '
                 'group_by nested in group_by / roll / split.',
     bounds=dict(quick='N <= 4 items (any ints), key mappers with 2 or 3 distinct keys', thorough='N <= 6 items (N <= 5 for 3 keys / nested)'),
     outside='more distinct keys than 3; key mappers raising or returning unhashable values; N above the bound',
@@ -46,7 +46,7 @@ def obligations(tier, seed):
     obs = []
     q = tier == 'quick'
     nmax = 4 if q else 6
-    for km in ('mod2', 'tup2', 'big2', 'flt2', 'str2', 'mod3', 'tup3'):
+    for km in ('mod2', 'tup2', 'big2', 'flt2', 'str2', 'neg2', 'negt', 'mod3', 'tup3'):
         for inner in ('to_list', 'identity'):
             for n in range(0, nmax + 1):
                 if km in ('mod3', 'tup3') and n > (4 if q else 5):
